@@ -26,7 +26,7 @@ EXTENDS Integers, Sequences, FiniteSets, TLC
 CONSTANTS
     Scale,      \* discounts are n/Scale, 0 < n < Scale
     FScale,     \* tax rate and slash fraction are n/FScale
-    Defects,    \* subset of {"D1","D2","D3","D4","D9"}: as-found behaviour switches
+    Defects,    \* subset of {"D1","D2","D3","D4","D9","D12","D13"}: as-found behaviour switches
     ModSvc      \* function: reserved (module) service name -> its provider account
 
 VARIABLES
@@ -303,7 +303,7 @@ SlashAmt(bd, k) == SlashOf(bd[k].dep)
 -----------------------------------------------------------------------------
 (* Request contexts: keeper/invocation.go *)
 
-NewCtxR(s, ps, c, input, cap, t, super, rep, f, n, st, thr, mod, rr, rs) ==
+NewCtxR(s, ps, c, input, cap, t, super, rep, f, n, st, thr, mod, rr, rs, rt) ==
 
     [svc |-> s, provs |-> ps, cons |-> c, input |-> input, cap |-> cap, timeout |-> t,
      super |-> super, rep |-> rep,
@@ -311,12 +311,13 @@ NewCtxR(s, ps, c, input, cap, t, super, rep, f, n, st, thr, mod, rr, rs) ==
      total |-> IF rep THEN n ELSE 0,
      batch |-> 0, reqCount |-> 0, respCount |-> 0, bthr |-> thr, bstate |-> "completed",
      state |-> st, thr |-> thr, module |-> mod,
-     \* what the owning module does from inside its response / state callback ("" | "pause" | "kill"):
+     \* what the owning module does from inside its response / state callback
+     \* ("" | "pause" | "kill" | "start" | "cap1") and to which context (0: the one the callback is about):
      \* state of the (test) module, kept with the context it belongs to
-     rresp |-> rr, rstate |-> rs]
+     rresp |-> rr, rstate |-> rs, rtgt |-> rt]
 
 NewCtx(s, ps, c, input, cap, t, super, rep, f, n, st, thr, mod) ==
-    NewCtxR(s, ps, c, input, cap, t, super, rep, f, n, st, thr, mod, "", "")
+    NewCtxR(s, ps, c, input, cap, t, super, rep, f, n, st, thr, mod, "", "", 0)
 
 \* capok: the fee cap is exactly one coin of the base denomination
 \* inok: the input satisfies the input schema
@@ -351,27 +352,51 @@ CanModCreate(c, s, ps, capok, inok, t, thr) ==
     /\ thr >= 1 /\ thr <= Len(ps)
     /\ CanCreate(s, capok, inok, t)
 
-ModCreateR(mod, c, s, ps, input, cap, capok, inok, t, super, rep, f, n, st, thr, rr, rs) ==
+ModCreateR(mod, c, s, ps, input, cap, capok, inok, t, super, rep, f, n, st, thr, rr, rs, rt) ==
     /\ CanModCreate(c, s, ps, capok, inok, t, thr)
-    /\ CreateEffects(nctx + 1, NewCtxR(s, ps, c, input, cap, t, super, rep, f, n, st, thr, mod, rr, rs))
+    /\ CreateEffects(nctx + 1, NewCtxR(s, ps, c, input, cap, t, super, rep, f, n, st, thr, mod, rr, rs, rt))
     /\ cb' = <<>>
     /\ UNCHANGED <<height, now, phase, params, bal, supply, defs, bind, powner, oprov, obind,
                    waddr, expQ, expQH, req, actId, actBind, resp, vol, earned, oearned>>
 
 ModCreate(mod, c, s, ps, input, cap, capok, inok, t, super, rep, f, n, st, thr) ==
-    ModCreateR(mod, c, s, ps, input, cap, capok, inok, t, super, rep, f, n, st, thr, "", "")
+    ModCreateR(mod, c, s, ps, input, cap, capok, inok, t, super, rep, f, n, st, thr, "", "", 0)
 
-\* Re-entrancy: from inside a callback the owning module may pause or kill the context the callback is
-\* about.  The callback is made after the step's own change to the context has been recorded (the batch
-\* completed, the context paused), the module's call is an ordinary keeper call at that point, and what it
-\* does stays done.  (As found - D13 - the caller of the response callback wrote its own copy of the
-\* context back afterwards, undoing the module's call.)
-ReactOK(c, op) == CASE op = "pause" -> c.rep /\ c.state = "running"
-                    [] op = "kill"  -> c.rep
-                    [] OTHER -> FALSE
-Reacted(c, op) == IF ~ReactOK(c, op) \/ "D13" \in Defects THEN c
-                  ELSE [c EXCEPT !.state = IF op = "pause" THEN "paused" ELSE "completed"]
-ReactCbs(id, c, op) == IF op = "" THEN <<>> ELSE <<ReactCb(id, op, ReactOK(c, op))>>
+\* Re-entrancy: from inside a callback the owning module may call the keeper again - pause, kill, start
+\* or update (here: lower the fee cap to one unit) the context the callback is about, or another one.
+\* The callback is made after the step's own change to the context has been recorded (the batch
+\* completed, the context paused); the module's call is an ordinary keeper call against the state at
+\* that point (Nest), and what it does stays done.  (As found - D13 - the caller of the response
+\* callback wrote its own copy of the context back afterwards, undoing the module's call.)
+\*   cx, nq, nqh: contexts and new-batch queue at the moment of the callback; eqh: expiry pointers;
+\*   cons: the consumer the module acts for; t: the context it acts on
+NestGuard(c, op) ==
+    CASE op = "pause" -> c.rep /\ c.state = "running"
+      [] op = "kill"  -> c.rep
+      [] op = "start" -> c.state = "paused"
+      [] op = "cap1"  -> c.state # "completed" /\ c.freq >= c.timeout
+      [] OTHER -> FALSE
+NestOK(cx, cons, t, op) ==
+    /\ t \in DOMAIN cx
+    /\ (cx[t].module # "" => cx[t].cons = cons)
+    /\ NestGuard(cx[t], op)
+NestCtx(c, op) ==
+    CASE op = "pause" -> [c EXCEPT !.state = "paused"]
+      [] op = "kill"  -> [c EXCEPT !.state = "completed"]
+      [] op = "start" -> [c EXCEPT !.state = "running"]
+      [] op = "cap1"  -> [c EXCEPT !.cap = 1]
+      [] OTHER -> c
+Nest(cx, nq, nqh, eqh, cons, t, op) ==
+    IF op = "" \/ ~NestOK(cx, cons, t, op)
+    THEN [cx |-> cx, nq |-> nq, nqh |-> nqh, ok |-> FALSE]
+    ELSE LET queue == op = "start" /\ t \notin DOMAIN eqh /\ t \notin DOMAIN nqh
+         IN [cx  |-> [cx EXCEPT ![t] = NestCtx(cx[t], op)],
+             nq  |-> IF queue THEN nq \cup {<<height, t>>} ELSE nq,
+             nqh |-> IF queue THEN Put(nqh, t, height) ELSE nqh,
+             ok  |-> TRUE]
+\* the context a reaction of context id is aimed at
+TgtOf(c, id) == IF c.rtgt = 0 THEN id ELSE c.rtgt
+NestCbs(t, op, ok) == IF op = "" THEN <<>> ELSE <<ReactCb(t, op, ok)>>
 
 \* CheckAuthority(..., checkModule): handler path checks the module, keeper path does not
 AuthMsg(c, id) == id \in DOMAIN ctx /\ ctx[id].cons = c /\ ctx[id].module = ""
@@ -497,12 +522,15 @@ Respond(p, r, kind, out) ==
        /\ vol' = Put(vol, <<c.cons, c.svc, p>>, Get0(vol, <<c.cons, c.svc, p>>) + 1)
        /\ LET c1 == [c EXCEPT !.respCount = @ + 1, !.bstate = IF done THEN "completed" ELSE @]
               op == IF done /\ c.module # "" THEN c.rresp ELSE ""
-          IN /\ ctx' = [ctx EXCEPT ![id] = Reacted(c1, op)]
+              t  == TgtOf(c, id)
+              N  == Nest([ctx EXCEPT ![id] = c1], newQ, newQH, expQH, c.cons, t, op)
+          IN /\ ctx' = IF "D13" \in Defects THEN [N.cx EXCEPT ![id] = c1] ELSE N.cx
+             /\ newQ' = N.nq /\ newQH' = N.nqh
              /\ cb' = IF done /\ c.module # ""
-                      THEN <<RespCb(id, c.batch, OutputsOf(rs, id, c.batch), c.bthr)>> \o ReactCbs(id, c1, op)
+                      THEN <<RespCb(id, c.batch, OutputsOf(rs, id, c.batch), c.bthr)>> \o NestCbs(t, op, N.ok)
                       ELSE <<>>
-    /\ UNCHANGED <<height, now, phase, params, defs, powner, oprov, obind, waddr, nctx, newQ,
-                   newQH, expQ, expQH, req>>
+    /\ UNCHANGED <<height, now, phase, params, defs, powner, oprov, obind, waddr, nctx,
+                   expQ, expQH, req>>
 
 -----------------------------------------------------------------------------
 (* Earned fees: keeper/fees.go WithdrawEarnedFees *)
@@ -596,7 +624,10 @@ ExpireBatch(id) ==
            refund == SumOver([r \in P |-> req[r].fee], P)
            c0   == IF open THEN [c EXCEPT !.bstate = "completed"] ELSE c
            op   == IF open /\ c.module # "" THEN c.rresp ELSE ""
-           c1   == Reacted(c0, op)
+           t    == TgtOf(c, id)
+           \* the callback runs before the expiry entry of this batch is taken off the queue
+           N    == Nest([ctx EXCEPT ![id] = c0], newQ, newQH, expQH, c.cons, t, op)
+           c1   == IF "D13" \in Defects THEN c0 ELSE N.cx[id]
            gone == RemovedAtExpiry(c1)
            again == c1.state = "running" /\ ~Finished(c1)
            nh   == height - c1.timeout + c1.freq
@@ -610,14 +641,14 @@ ExpireBatch(id) ==
        /\ actId' = actId \ S
        /\ actBind' = {a \in actBind : a[4] \notin S}
        /\ cb' = IF open /\ c.module # ""
-                THEN <<RespCb(id, c.batch, OutputsOf(resp, id, c.batch), c.bthr)>> \o ReactCbs(id, c0, op)
+                THEN <<RespCb(id, c.batch, OutputsOf(resp, id, c.batch), c.bthr)>> \o NestCbs(t, op, N.ok)
                 ELSE <<>>
        /\ expQ' = expQ \ {<<height, id>>}
        /\ expQH' = Drop(expQH, {id})
-       /\ ctx' = IF gone THEN Drop(ctx, {id}) ELSE [ctx EXCEPT ![id] = c1]
+       /\ ctx' = IF gone THEN Drop(N.cx, {id}) ELSE [N.cx EXCEPT ![id] = c1]
        /\ IF again
-          THEN newQ' = newQ \cup {<<nh, id>>} /\ newQH' = Put(newQH, id, nh)
-          ELSE UNCHANGED <<newQ, newQH>>
+          THEN newQ' = N.nq \cup {<<nh, id>>} /\ newQH' = Put(N.nqh, id, nh)
+          ELSE newQ' = N.nq /\ newQH' = N.nqh
        /\ req' = Drop(req, ReqsOf(id, c.batch))
        /\ resp' = Drop(resp, RespsOf(id, c.batch))
     /\ UNCHANGED <<height, now, phase, params, defs, powner, oprov, obind, waddr, nctx, vol,
@@ -665,9 +696,17 @@ StartBatch(id) ==
            b1 == c.batch + 1
            rids == [i \in DOMAIN E |-> <<id, b1, height, i - 1>>]
            issue == enough /\ (~broke \/ "D1" \in Defects)
+           served == c.state = "running" /\ ~(Exhausted(c) /\ "D12" \notin Defects)
+           \* OnRequestContextPaused: the pause is stored, then the owning module's state callback runs
+           \* (the queue entry being handled is still there) and may call the keeper again
+           cp == [c EXCEPT !.bstate = "completed", !.state = "paused"]
+           pausing == served /\ enough /\ ~issue
+           t  == TgtOf(c, id)
+           rop == IF pausing /\ c.module # "" THEN c.rstate ELSE ""
+           N  == Nest([ctx EXCEPT ![id] = cp], newQ, newQH, expQH, c.cons, t, rop)
        IN
-       /\ newQ' = newQ \ {<<height, id>>}
-       /\ newQH' = Drop(newQH, {id})
+       /\ newQ' = (IF pausing THEN N.nq ELSE newQ) \ {<<height, id>>}
+       /\ newQH' = Drop(IF pausing THEN N.nqh ELSE newQH, {id})
        /\ IF c.state # "running"
           THEN /\ cb' = <<>>
                /\ UNCHANGED <<bal, ctx, expQ, expQH, req, actId, actBind>>
@@ -679,8 +718,7 @@ StartBatch(id) ==
           ELSE
           /\ bal' = IF enough /\ ~c.super /\ ~broke THEN Move(bal, c.cons, REQ, total) ELSE bal
           /\ cb' = IF broke /\ c.module # ""
-                   THEN <<StateCb(id, "insufficient balances")>>
-                        \o (IF issue THEN <<>> ELSE ReactCbs(id, [c EXCEPT !.bstate = "completed", !.state = "paused"], c.rstate))
+                   THEN <<StateCb(id, "insufficient balances")>> \o NestCbs(t, rop, N.ok)
                    ELSE <<>>
           /\ IF ~enough
              THEN \* SkipCurrentRequestBatch
@@ -690,12 +728,10 @@ StartBatch(id) ==
                   /\ expQH' = Put(expQH, id, height + c.timeout)
                   /\ UNCHANGED <<req, actId, actBind>>
              ELSE IF ~issue
-             THEN \* OnRequestContextPaused, nothing issued
-                  /\ ctx' = [ctx EXCEPT ![id] =
-                               LET cp == [c EXCEPT !.bstate = "completed", !.state = "paused"]
-                               IN IF c.module # "" /\ ReactOK(cp, c.rstate)
-                                  THEN [cp EXCEPT !.state = IF c.rstate = "kill" THEN "completed" ELSE cp.state]
-                                  ELSE cp]
+             THEN \* paused, nothing issued.  (If the module answers by starting the context again, the
+                  \* start finds the queue entry that is being handled, adds none, and the entry is then
+                  \* removed: the context is left running with nothing scheduled - finding D14.)
+                  /\ ctx' = N.cx
                   /\ UNCHANGED <<expQ, expQH, req, actId, actBind>>
              ELSE \* InitiateRequests (as found with D1: also after the pause)
                   /\ ctx' = [ctx EXCEPT ![id] =
